@@ -1019,3 +1019,42 @@ Proof.
   destruct (split_valid _ Hpre (length A) ltac:(rewrite app_length; lia) HbA) as [_ Hs].
   rewrite skipn_app_exact in Hs. exact Hs.
 Qed.
+
+(* ================================================================== executable validity *)
+
+Lemma split_chars_concat : forall l,
+  fst (split_chars l) ++ concat (snd (split_chars l)) = l.
+Proof.
+  induction l as [|b t IH]; [reflexivity|].
+  cbn [split_chars]. destruct (split_chars t) as [cs gs]. cbn [fst snd] in IH.
+  destruct (is_cont b); cbn [fst snd concat app]; f_equal; exact IH.
+Qed.
+
+Lemma valid_concat : forall gs, Forall wf_char gs -> valid_utf8 (concat gs).
+Proof. induction 1 as [|g gs Hg _ IH]; [constructor|]. cbn [concat]. constructor; assumption. Qed.
+
+Lemma valid_utf8b_ok : forall l, valid_utf8b l = true -> valid_utf8 l.
+Proof.
+  intros l H. unfold valid_utf8b in H. pose proof (split_chars_concat l) as Hc.
+  destruct (fst (split_chars l)); [|discriminate]. cbn [app] in Hc. rewrite <- Hc.
+  apply valid_concat. apply Forall_forall. intros g Hg.
+  rewrite forallb_forall in H. apply wf_charb_ok. apply H. exact Hg.
+Qed.
+
+(* ================================================================== report_target *)
+
+(* the registry maps a name to the template stored under that name, with its own source *)
+Definition registry_ok (templates : list N -> option (list N * list N))
+    (source_of : list N -> list N) : Prop :=
+  forall n r, templates n = Some r -> r = (n, source_of n).
+
+Lemma report_target_is_chunk_owner : forall tpl_name chunk_name templates source_of r,
+  registry_ok templates source_of ->
+  report_target tpl_name (source_of tpl_name) chunk_name templates = Some r ->
+  r = (chunk_name, source_of chunk_name).
+Proof.
+  intros tpl_name chunk_name templates source_of r Hreg H. unfold report_target in H.
+  destruct (list_eq_dec N.eq_dec tpl_name chunk_name) as [->|Hne].
+  - injection H as <-. reflexivity.
+  - apply Hreg. exact H.
+Qed.
